@@ -243,6 +243,11 @@ def default_replay(ctx, key):
         return None
     if re.match(r'(C01|C06:arith|C10:arithmetic|C10:quantile|C16:arith)', k):
         return lambda model, p: native.replay_arith(ctx, model, p['name'])
+    if re.match(r'C16:unpaired:negate', k):
+        def both(model, p):
+            ok, path, note = native.replay_unpaired_mirror(ctx, model, p['name'])
+            return (ok, path, note) if ok else native.replay_unpaired(ctx, model, p['name'])
+        return both
     if re.match(r'(C04:unpaired|C04:swap|C10:unpaired|C06:unpaired|C16:unpaired)', k):
         return lambda model, p: native.replay_unpaired(ctx, model, p['name'])
     if re.match(r'C13:relative_to', k):
